@@ -45,7 +45,7 @@ def xssLoop (h : H) (attr : Nat) : Nat → M Bool
     | .tagComment => if ← commentIsXSS h then return true else xssLoop h attr fuel
     | _ => xssLoop h attr fuel
 
-def xssFuel (n : Nat) : Nat := 2 * n + 3
+def xssFuel (n : Nat) : Nat := 3 * n + 4
 
 def isXSSCtx (s : Bytes) (ctx : Nat) : M Bool := xssLoop (init s ctx) 0 (xssFuel s.length)
 
